@@ -10,22 +10,23 @@ pub mod c16;
 pub mod c17;
 pub mod c13;
 pub mod c18;
+pub mod schedprops;
 pub mod seqprops;
 
 pub fn units(id: &str, tier: &str) -> Option<Vec<Unit>> {
     let thorough = tier == "thorough";
     Some(match id {
-        "C01" => seqprops::c01(thorough),
+        "C01" => { let mut v = seqprops::c01(thorough); v.extend(schedprops::c01_sched(thorough)); v }
         "C02" => seqprops::c02(thorough),
         "C03" => c03::units(thorough),
         "C04" => seqprops::c04(thorough),
         "C05" => seqprops::c05(thorough),
         "C06" => c06::units(thorough),
         "C07" => c07::units(thorough),
-        "C08" => seqprops::c08(thorough),
+        "C08" => { let mut v = seqprops::c08(thorough); v.extend(schedprops::c08_sched(thorough)); v }
         "C09" => c09::units(thorough),
-        "C10" => seqprops::c10(thorough),
-        "C11" => seqprops::c11(thorough),
+        "C10" => { let mut v = seqprops::c10(thorough); v.extend(schedprops::c10_sched(thorough)); v }
+        "C11" => { let mut v = seqprops::c11(thorough); v.extend(schedprops::c11_sched(thorough)); v }
         "C12" => c12::units(thorough),
         "C13" => c13::units(thorough),
         "C14" => c14::units(thorough),
